@@ -38,6 +38,9 @@ def expected_record(case: dict, cv, has_retry: bool):
         if end["type"] in CANCEL_TYPES:
             return ("record_cancel", None)
         return None  # nested RetryExhaustedError etc.: exactly one record, kind not pinned
+    if k == "fail" and any(e[0] == "handler" and e[4] == "abort" for e in cv.events):
+        # the sleep handler answered ABORT: the call was aborted, however the run then describes its ending
+        return ("record_cancel", None)
     if k == "fail":
         if cv.atts and cv.atts[-1].kind == "copen":
             return None  # a nested breaker's rejection is deliberately not counted: one record, kind not pinned
